@@ -27,6 +27,7 @@ Clauses ==
                                     E.namespace, E.count, E.subs)
     [] E.ev = "EndGraph" -> EndGraphClauses(E.b, E.graph, E.outputs, Pairs(E.stack))
     [] E.ev = "Output" -> OutputClauses(E.b, E.graph, E.value)
+    [] E.ev = "InlineBegin" -> InlineBeginClauses(E.b)
     [] E.ev = "InlineEnd" -> InlineEndClauses(E.b, E.outputs, E.nodes)
     [] OTHER -> <<<<"unknown_event", FALSE>>>>
 Update ==
@@ -41,7 +42,8 @@ Update ==
     [] E.ev = "Node" -> DoNode(E.graph, E.id, E.name, E.outs, E.out_names)
     [] E.ev = "EndGraph" -> DoEndGraph(E.graph)
     [] E.ev = "Output" -> Keep
-    [] E.ev = "InlineEnd" -> Keep
+    [] E.ev = "InlineBegin" -> DoInlineBegin(E.b)
+    [] E.ev = "InlineEnd" -> DoInlineEnd(E.b)
 
 \* clauses that listed known findings of C18 explain (subgraph_name_reuse, param_subgraph_scope, the name collisions of
 \* sequential_child_direct / named_child_keeps_name): reported as NOTE, validation goes on; the harness decides per trace
